@@ -17,6 +17,8 @@ MODELS = {
              "model Comp C c[2]; Real t; equation t = c[1].h[2] + c[2].f; end Comp;", {"c.h": (2, 2), "c.f": (2,)}),
     "Mder": ("model Mder Real M[2,3](each start = 1); equation der(M[1,1]) = -11 * M[1,1]; der(M[1,2]) = -12 * M[1,2]; der(M[1,3]) = -13 * M[1,3]; "
              "der(M[2,1]) = -21 * M[2,1]; der(M[2,2]) = -22 * M[2,2]; der(M[2,3]) = -23 * M[2,3]; end Mder;", {"M": (2, 3)}),
+    "MatEq": ("model MatEq parameter Real K[2,3] = {{1, 2, 3}, {4, 5, 6}}; Real W[2,3](each start = 1); input Real u; "
+              "equation der(W) = K * u - W; end MatEq;", {"W": (2, 3)}),
     "Nest": ("model A Real x[3](each start = 1); equation der(x[1]) = -1 * x[1]; der(x[2]) = -2 * x[2]; der(x[3]) = -3 * x[3]; end A; "
              "model Nest A a[2]; end Nest;", {"a.x": (2, 3)}),
 }
@@ -39,11 +41,11 @@ def residual_values(m, V):
             A = np.asarray(V[base], dtype=float)
             col.append(float(A[idx]))
         args.append(np.array(col, dtype=float))
-    return sorted(float(t) for t in np.array(m.dae_residual_function(*args)).reshape(-1))
+    return [float(t) for t in np.array(m.dae_residual_function(*args)).reshape(-1)]      # entry by entry, in the residual's own order
 
 
 def judge_residual(m0, m1):
-    """the expanded residual is the unexpanded one under the renaming: same multiset of residual values at random points"""
+    """the expanded residual is the unexpanded one under the renaming: the same value in every entry at random points"""
     rng = np.random.RandomState(181)
     for _ in range(3):
         V = {"time": float(rng.uniform(0, 1))}
